@@ -38,6 +38,9 @@ OPTION_SETS = [
     ("tiny-files", ["--sst-target-file-size", "150", "--sst-minimum-file-size", "60", "--sst-target-block-size", "64", "--max-compaction-files", "4"]),
     ("rollover-often", ["--sst-target-file-size", "400", "--sst-minimum-file-size", "200", "--sst-target-block-size", "128", "--mani-log-rollover-ratio", "1"]),
     ("defaults", []),
+    # the log's BufWriter must hold a whole frame for an append to be ONE write(): 4096 is far above the
+    # frames of these histories (the default is 2 MiB against frames of at most 1 MiB)
+    ("small-log-buffer", ["--sst-target-file-size", "300", "--sst-minimum-file-size", "120", "--sst-target-block-size", "96", "--log-write-buffer", "4096"]),
 ]
 BASE_OPTS = ["--memtable-size-bytes", "100000000", "--l0-write-stall-threshold-files", "100000",
              "--l0-write-stall-threshold-bytes", "100000000000"]
@@ -336,6 +339,8 @@ def session_script(sess):
             for _ in range(op[1]):
                 lines += ["compact", "dump"]
                 items += [("compact", None), ("dump", None)]
+    lines += ["getall " + ",".join(hx(k) for k in UNIVERSE), "dump"]
+    items += [("getall", None), ("dump", None)]
     return lines, items
 
 
@@ -368,7 +373,7 @@ class History:
         self.problems = []      # dicts: kind in prop|corr
         self.known = []
         self.stats = {"sessions": 0, "ops": 0, "writes": 0, "flushes": 0, "compactions": 0, "moves": 0, "gc": 0, "events": 0, "dropped_events": 0,
-                      "probes": 0, "probes_a": 0, "probes_b": 0, "probes_r": 0, "nested": 0, "kills": 0, "faults": 0, "faults_surfaced": 0, "faults_dropped_ok": 0,
+                      "probes": 0, "probes_a": 0, "probes_b": 0, "probes_r": 0, "probes_l": 0, "nested": 0, "kills": 0, "faults": 0, "faults_surfaced": 0, "faults_dropped_ok": 0,
                       "inflight_in": 0, "inflight_out": 0, "trace_calls_compared": 0, "probe_points": {}}
         self.bind = {}          # real setsum hex -> model sst id
         self.rbind = {}
@@ -386,16 +391,27 @@ class History:
         d.update(kw)
         self.problems.append(d)
 
+    def tree_ill_formed(self):
+        """does a level >= 1 of the last dumped tree hold two files whose key ranges overlap?"""
+        by = {}
+        for lvl, nm in getattr(self, "tree_levels", []):
+            e = self.cache.get(nm, ([], None))[0]
+            if lvl >= 1 and e:
+                by.setdefault(lvl, []).append((min(x[0] for x in e), max(x[0] for x in e)))
+        for rs in by.values():
+            rs.sort()
+            for a, b in zip(rs, rs[1:]):
+                if b[0] < a[1] or (b[0] == a[1] and (a[0] != a[1] or b[0] != b[1]) and False):
+                    return True
+        return False
+
     def outside(self, what, si, n):
-        if self.stats.get("k2_selector_failures", 0) > 0:
-            # the selector's assertion left the tree's mutex poisoned: everything that locks it afterwards
-            # panics too — same K2 event
-            self.known.append(("K2", "an operation fails after the selector tripped over a mis-recovered tree"))
+        """a write or flush failed although nothing was injected"""
+        if getattr(self, "k2_poisoned", False) and "PANIC" in what:
+            # the selector's assertion left the tree's mutex poisoned: everything that locks it afterwards panics
+            self.known.append(("K2", "an operation panics after the selector tripped over a mis-recovered tree"))
             return
-        self.stats["fault_free_failures_outside_c02"] = self.stats.get("fault_free_failures_outside_c02", 0) + 1
-        self.outside_notes = getattr(self, "outside_notes", [])
-        if len(self.outside_notes) < 2:
-            self.outside_notes.append("%s (history %s, options %s, session %d op %d)" % (what, self.tag, self.optname, si, n))
+        self.problem("prop", what, replay={"options": self.optname, "history": ops_to_json(self.ops), "session": si, "op": n})
 
     def spec_map(self, batches):
         m = {}
@@ -472,6 +488,26 @@ class History:
                     ms.append(mc[mj][1].split(" ")[1].split(":")[1])
                     mj += 1
                 if sorted(self.bind.get(x, "?" + x) for x in rs) != sorted(ms):
+                    self.dbg = {"real_bound": [self.bind.get(x, "?" + x) for x in rs], "model": ms,
+                                "real_ents": [[ent_str(e) for e in self.cache.get(x, ([], 0))[0]][:6] for x in rs],
+                                "model_ents": [self.model.cmd("ENT " + x)[:300] for x in ms]}
+                    ok = False
+                    break
+                i, j = ri, mj
+                continue
+            # remove_dir_all of a left-over compaction directory unlinks in readdir order: compare as a set
+            if rkind == "unlink" and rnames[0].startswith("comp:") and mt[0] == "unlink" and mt[1].startswith("comp:"):
+                ri, mj = i, j
+                rs, ms = [], []
+                while ri < len(real) and real[ri][0] == "unlink" and real[ri][1][0].startswith("comp:"):
+                    rs.append(real[ri][1][0])
+                    ri += 1
+                while mj < len(mc) and mc[mj][1].startswith("unlink comp:"):
+                    ms.append(mc[mj][1].split(" ")[1])
+                    mj += 1
+                rs.sort(key=lambda x: int(x.split(":")[2]))
+                ms.sort(key=lambda x: int(x.split(":")[2]))
+                if len(rs) != len(ms) or not all(self.unify(a, b) for a, b in zip(rs, ms)):
                     ok = False
                     break
                 i, j = ri, mj
@@ -487,7 +523,7 @@ class History:
         if not ok:
             self.problem("corr", "system-call sequence differs from the model's at call %d of %s" % (i, where),
                          real=[" ".join([c[0]] + list(c[1])) + (" FAILED" if c[2] else "") for c in real][max(0, i - 4):i + 8],
-                         model=model_calls[max(0, j - 4):j + 8], real_len=len(real), model_len=len(mc))
+                         model=model_calls[max(0, j - 4):j + 8], real_len=len(real), model_len=len(mc), dbg=getattr(self, "dbg", None))
         return ok
 
     # ------------------------------------------------------------ probes
@@ -524,8 +560,9 @@ class History:
         want = ["." if vis.get(k) is None else hx(vis[k]) for k in UNIVERSE]
         got = ["." if g == "~" else g for g in (pr["get"] or [])]
         if got != want:
-            if self.k2_pair(pr):
-                self.known.append(("K2", "after reopen, point reads differ from the newest recovered entries; the recovered tree holds files overlapping in key and timestamp range"))
+            bad = [k for k, g, w in zip(UNIVERSE, got, want) if g != w]
+            if len(got) == len(want) and self.k2_pair(pr, bad):
+                self.known.append(("K2", "after reopen, point reads differ from the newest recovered entries; two live files both hold the key and overlap in timestamp range"))
             else:
                 self.problem("prop", "after a crash %s point reads differ from the recovered entries" % where, got=got, want=want, replay=replay)
         elif pr["scan"] is not None:
@@ -533,38 +570,50 @@ class History:
             for it in pr["scan"]:
                 k, _, v = it.partition("=")
                 sc[unhx(k)] = None if v == "~" else unhx(v)
-            if {k: v for k, v in sc.items() if v is not None} != vis and not self.k2_pair(pr):
-                self.problem("prop", "after a crash %s the range scan differs from the recovered entries" % where,
-                             got=sorted(hx(k) for k in sc), want=sorted(hx(k) for k in vis), replay=replay)
+            scl = {k: v for k, v in sc.items() if v is not None}
+            if scl != vis:
+                bad = [k for k in set(scl) | set(vis) if scl.get(k) != vis.get(k)]
+                if self.k2_pair(pr, bad):
+                    self.known.append(("K2", "after reopen, the range scan differs from the newest recovered entries; two live files both hold the key and overlap in timestamp range"))
+                else:
+                    self.problem("prop", "after a crash %s the range scan differs from the recovered entries" % where,
+                                 got=sorted(hx(k) for k in sc), want=sorted(hx(k) for k in vis), replay=replay)
         if mq is not None:
             t = dict(kv.split("=", 1) for kv in mq.split(" ")[1:] if "=" in kv)
             ments = parse_ents(t.get("ents", ""))
             if t.get("ok") != "1" or t.get("err") != "0":
                 self.problem("corr", "model predicts a failing reopen %s: %s" % (where, mq[:80]))
-            elif sorted(ent_str(e) for e in ments) != sorted(ent_str(e) for e in set(pr["ents"])):
-                # the real tree can hold an entry twice only if two files hold it; compare as sets
-                if set(ent_str(e) for e in ments) != set(ent_str(e) for e in pr["ents"]):
-                    self.problem("corr", "recovered entries differ from the model's prediction %s" % where,
-                                 real=sorted(ent_str(e) for e in pr["ents"])[:30], model=sorted(ent_str(e) for e in ments)[:30])
+            elif sorted(ent_str(e) for e in ments) != sorted(ent_str(e) for e in pr["ents"]):
+                # as multisets: an entry held by two live files counts twice on both sides
+                self.problem("corr", "recovered entries differ from the model's prediction %s" % where,
+                             real=sorted(ent_str(e) for e in pr["ents"])[:30], model=sorted(ent_str(e) for e in ments)[:30])
+            elif pr.get("seq") is not None and t.get("seq") is not None and int(t["seq"]) != pr["seq"]:
+                self.problem("corr", "sequence number after the reopen differs from the model's %s" % where, real=pr["seq"], model=t["seq"])
+            else:
+                self.stats["probe_seq_compared"] = self.stats.get("probe_seq_compared", 0) + 1
 
-    def k2_pair(self, pr):
+    def k2_pair(self, pr, keys):
+        """K2's shape for these keys: two live files that BOTH hold one of the keys and whose timestamp
+        ranges overlap (recover.rs cannot order them from key and timestamp ranges alone)"""
         names = pr["files"] or []
-        meta = {}
-        for n in names:
-            e = pr["cache"].get(n, ([], None))[0]
-            if e:
-                meta[n] = (min(x[0] for x in e), max(x[0] for x in e), min(x[1] for x in e), max(x[1] for x in e))
-        ns = list(meta)
-        for i in range(len(ns)):
-            for j in range(i + 1, len(ns)):
-                a, b = meta[ns[i]], meta[ns[j]]
-                if a[0] <= b[1] and b[0] <= a[1] and not (a[3] < b[2] or b[3] < a[2]):
-                    return True
+        for key in keys:
+            hold = []
+            for n in names:
+                e = pr["cache"].get(n, ([], None))[0]
+                if any(x[0] == key for x in e):
+                    hold.append((min(x[1] for x in e), max(x[1] for x in e)))
+            for i in range(len(hold)):
+                for j in range(i + 1, len(hold)):
+                    a, b = hold[i], hold[j]
+                    if not (a[1] < b[0] or b[1] < a[0]):
+                        return True
         return False
 
     def want_probe(self, n_points, opdesc=""):
         """thorough: every crash point of histories of moderate length; otherwise a budget of points
         per history, spread evenly; the (rare) compactions are always probed densely"""
+        if not getattr(self, "probing", True):
+            return False
         if opdesc.startswith("compact"):
             return self.tier != "quick" or self.rng.chance(1, 2)
         budget = 45 if self.tier == "quick" else 400
@@ -581,15 +630,17 @@ class History:
         for r, ev in enumerate(evs):
             if ev.kind is not None and self.want_probe(len(evs), opdesc):
                 modes = ("a", "b", "r") if self.rng.chance(1, 4) else ("a", "b")
+                if self.fs.manifest_unsynced():
+                    modes += ("l",)     # a manifest edit on disk up to a line boundary inside it
                 for mode in modes:
                     img = self.fs.image(mode, self.rng)
                     d = self.image_dir(img, "img")
-                    nested = mode != "r" and (self.rng.chance(1, 12) if self.tier != "quick" else self.rng.chance(1, 40))
+                    nested = mode in ("a", "b") and (self.rng.chance(1, 12) if self.tier != "quick" else self.rng.chance(1, 40))
                     tr = os.path.join(self.dir, "probe.trace") if nested else None
                     pr = probe(self.exe, d, self.opts, trace=tr)
                     # 'r' (an arbitrary cut between the two models) is covered by the theorem's `cut`;
                     # the extracted model is asked for (a) and (b) only
-                    mq = self.model.cmd("Q %d %s" % (prefix[r], mode)) if mode != "r" else None
+                    mq = self.model.cmd("Q %d %s" % (prefix[r], mode)) if mode in ("a", "b") else None
                     rp = {"options": self.optname, "history": ops_to_json(self.ops), "session": sess_idx, "operation": opdesc,
                           "crash_before_call": "%s(%s%s)" % (ev.sys, ev.p1, (" -> " + ev.p2) if ev.p2 else ""), "crash_model": mode}
                     self.stats["probes_" + mode] += 1
@@ -598,9 +649,46 @@ class History:
                     self.check_probe(pr, mq, "%s before %s(%s), model (%s)" % (where, ev.sys, ev.p1, mode), acked, inflight, rp)
                     if nested and pr["open"] == "ok":
                         self.nested_probe(img, tr, prefix[r], mode, where, acked, inflight, rp)
+                    if mode in ("a", "b") and pr["open"] == "ok" and not pr["bad"] and \
+                            (self.rng.chance(1, 30) if self.tier == "quick" else self.rng.chance(1, 8)):
+                        self.continue_from_image(img, prefix[r], mode, where, acked, inflight, pr, rp)
                 if kill_ctx is not None and (self.rng.chance(1, 25) if self.tier == "quick" else self.rng.chance(1, 8)):
                     self.kill_check(ev, kill_ctx, where, acked, inflight, opdesc, sess_idx)
             self.fs.apply(ev)
+
+    def continue_from_image(self, img, k, mode, where, acked, inflight, pr, rp):
+        """the store goes on living after the crash: reopen the crash image and run more operations on it
+        (writes, flushes, compactions, reopens) in lock step with the model, which continues from the same
+        image; then exit, reopen, and everything acknowledged before AND after the crash must be there"""
+        saved = (self.fs, self.acked, self.tree, getattr(self, "tree_levels", []), self.probing)
+        nprob = len(self.problems)
+        base = list(acked)
+        if inflight is not None and visible(pr["ents"]) != self.spec_map(acked):
+            base.append(inflight)       # the in-flight batch made it (check_probe has verified it is one of the two)
+        self.model.cmd("SAVE")
+        try:
+            if self.model.cmd("LOAD %d %s" % (k, mode)) != "OK":
+                return
+            self.fs, self.acked, self.probing = img.clone(), base, False
+            d = self.image_dir(img, "cont")
+            cops = gen_history(self.rng.fork(), self.rng.choice([4, 8, 14]))
+            self.stats["continuations"] = self.stats.get("continuations", 0) + 1
+            for ci, sess in enumerate(split_sessions(cops)):
+                self.play_session(d, 1000 + ci, sess)
+            pr2 = probe(self.exe, d, self.opts)
+            self.model.cmd("PEND O")
+            mq = self.model.cmd("Q 0 a")
+            self.check_probe(pr2, mq, "%s; reopened, continued with %d operations, exit" % (where, len(cops)), list(self.acked), None,
+                             dict(rp, continued_with=ops_to_json(cops)))
+        except Problem:
+            pass
+        finally:
+            for pb in self.problems[nprob:]:
+                pb["what"] = "[continuing after a crash %s] %s" % (where, pb["what"])
+                if "replay" in pb and isinstance(pb["replay"], dict):
+                    pb["replay"] = dict(rp, then=pb["replay"].get("operation", pb["replay"].get("op")))
+            self.fs, self.acked, self.tree, self.tree_levels, self.probing = saved
+            self.model.cmd("RESTORE")
 
     def nested_probe(self, img, trace, k1, mode1, where, acked, inflight, rp):
         """crash during the recovery of a crash image, then reopen again"""
@@ -677,165 +765,184 @@ class History:
         sessions = split_sessions(self.ops)
         real = os.path.join(self.dir, "real")
         os.makedirs(real)
-        root_abs = os.path.join(real, "db")
-        fault_plan = []
+        self.fault_plan = []
+        self.probing = True
         for si, sess in enumerate(sessions):
-            script, items = session_script(sess)
-            start_fs = self.fs.clone()
-            trace = os.path.join(self.dir, "s%d.trace" % si)
-            so = SessionOut(run_session(self.exe, real, self.opts, script, trace=trace))
-            self.stats["sessions"] += 1
-            evs, _ = F.parse_trace(trace, root_abs, "db")
-            os.unlink(trace)
-            self.all_events = getattr(self, "all_events", {})
-            self.all_events[si] = evs
-            # segment the events by the markers
-            segs, cur, cur_key = {}, [], "open"
-            for ev in evs:
-                if ev.marker:
-                    t = ev.marker.split(" ")
-                    if t[1] == "O":
-                        segs["open"] = cur
-                        cur, cur_key = [], None
-                    elif t[1] == "S":
-                        if cur:
-                            segs.setdefault("stray", []).extend(cur)
-                        cur, cur_key = [], int(t[2])
-                    elif t[1] == "A":
-                        segs[int(t[2])] = cur
-                        cur, cur_key = [], None
-                    continue
-                if ev.kind is not None:
-                    cur.append(ev)
-            if cur:
-                segs.setdefault("stray", []).extend(cur)
-            if segs.get("stray"):
-                self.problem("corr", "store calls outside any operation", calls=[repr(e) for e in segs["stray"][:5]])
-            if so.open != "ok" or so.hang:
-                self.problem("prop", "open failed in a fault-free history: %s" % so.open, replay={"options": self.optname, "history": ops_to_json(self.ops), "session": si})
-                raise Problem()
-            kill_ctx = (start_fs, script)
-            # ---- open
-            oevs = segs.get("open", [])
-            self.stats["events"] += len(oevs)
-            m = self.model.cmd("PEND O")
-            kept, prefix = self.canon_events(oevs)
-            self.compare_trace(kept, [c for c in m[6:].split(" | ")[0].split(" ; ") if c], "open (session %d)" % si)
-            self.probe_points(oevs, prefix, "during open of session %d" % si, list(self.acked), None, "open", si, kill_ctx)
-            fault_plan += self.plan_faults(si, "open", oevs, prefix)
-            g = self.model.cmd("GO")
-            if not g.startswith("DONE ok=1"):
-                self.problem("corr", "model open failed: " + g)
-                raise Problem()
-            # ---- operations
-            for n, (kind, payload) in enumerate(items, start=1):
-                res = so.res.get(n)
-                oe = segs.get(n, [])
-                self.stats["events"] += len(oe)
-                if res is None:
-                    self.problem("prop", "operation did not return: %s" % kind, replay={"options": self.optname, "history": ops_to_json(self.ops), "session": si, "op": n})
-                    raise Problem()
-                if kind == "dump":
-                    files, seq = parse_dump(so.info.get(n, []), res, self.cache)
-                    self.tree = [nm for _, nm in files]
-                    self.sync_files(g, files, seq, "session %d op %d" % (si, n))
-                    if oe:
-                        self.problem("corr", "dump issued store calls", calls=[repr(e) for e in oe[:3]])
-                    continue
-                self.stats["ops"] += 1
-                if kind == "w":
-                    if res != "ok":
-                        self.outside("write failed in a fault-free history: %s" % res, si, n)
-                        raise Problem()
-                    self.stats["writes"] += 1
-                    m = self.model.cmd("PEND W " + ",".join("%s=%s" % (hx(k), "~" if v is None else hx(mv(v))) for k, v in payload))
-                    kept, prefix = self.canon_events(oe)
-                    self.compare_trace(kept, [c for c in m[6:].split(" ; ") if c], "write (session %d op %d)" % (si, n))
-                    self.probe_points(oe, prefix, "during write %d of session %d" % (n, si), list(self.acked), payload, "write " + script[n - 1], si, kill_ctx)
-                    fault_plan += self.plan_faults(si, n, oe, prefix)
-                    g = self.model_go("session %d op %d" % (si, n))
-                    self.acked.append(list(payload))
-                    if isinstance(payload, WX):
-                        logs = [len(nd.data) for p_, nd in self.fs.files.items() if p_.startswith("log.")]
-                        self.stats["biglog_writes"] = self.stats.get("biglog_writes", 0) + 1
-                        if logs != [payload.end]:
-                            self.problem("corr", "big-log history: the log is not as long as the framing arithmetic says", want=payload.end, got=logs)
-                        elif payload.end % BLOCK in (0,) + tuple(BLOCK - i for i in range(1, 21)):
-                            self.stats["biglog_frame_ends_near_boundary"] = self.stats.get("biglog_frame_ends_near_boundary", 0) + 1
-                elif kind == "flush":
-                    if not res.startswith("ok"):
-                        self.outside("flush failed in a fault-free history: %s" % res, si, n)
-                        raise Problem()
-                    self.stats["flushes"] += 1
-                    m = self.model.cmd("PEND F")
-                    kept, prefix = self.canon_events(oe)
-                    self.compare_trace(kept, [c for c in m[6:].split(" | ")[0].split(" ; ") if c], "flush (session %d op %d)" % (si, n))
-                    self.probe_points(oe, prefix, "during flush %d of session %d" % (n, si), list(self.acked), None, "flush", si, kill_ctx)
-                    fault_plan += self.plan_faults(si, n, oe, prefix)
-                    g = self.model_go("session %d op %d" % (si, n))
-                elif kind == "compact":
-                    t = res.split(" ")
-                    if t[0] == "none":
-                        if oe:
-                            self.problem("corr", "a compaction step that found nothing issued store calls")
-                        continue
-                    if t[0] != "ok":
-                        # not a statement about crashes: C01 ("no fault-free operation returns an error") /
-                        # C20 own the selector.  A step that failed before touching the directory is skipped
-                        # (what was acknowledged must still survive the exit and the reopen).
-                        if si >= 1:
-                            # after a reopen: the selector trips over a tree that recover.rs levelled badly
-                            # (find_best_compaction's assertion; the version mutex stays poisoned) = K2
-                            self.known.append(("K2", "a compaction step fails after a reopen whose recovered tree is not well-formed"))
-                            self.stats["k2_selector_failures"] = self.stats.get("k2_selector_failures", 0) + 1
-                        else:
-                            self.outside("compaction failed in a fault-free history: %s" % res, si, n)
-                        if oe:
-                            raise Problem()
-                        continue
-                    inputs = t[6].split(",")
-                    if len(inputs) == 1:
-                        self.stats["moves"] += 1
-                        if oe:
-                            self.problem("corr", "a trivial move issued store calls", calls=[repr(e) for e in oe[:3]])
-                        continue
-                    self.stats["compactions"] += 1
-                    # the outputs: what the next dump shows that was not there, plus inputs that stayed
-                    nfiles, _ = parse_dump(so.info.get(n + 1, []), so.res.get(n + 1, ""), self.cache)
-                    after = [nm for _, nm in nfiles]
-                    before = set(self.tree)
-                    outs = [nm for nm in after if nm not in before or nm in inputs]
-                    in_e = set(ent_str(e) for nm in inputs for e in self.cache.get(nm, ([], None))[0])
-                    out_e = set(ent_str(e) for nm in outs for e in self.cache.get(nm, ([], None))[0])
-                    if in_e != out_e:
-                        self.stats["gc"] += 1
-                    ids = []
-                    for nm in inputs:
-                        if nm not in self.bind:
-                            self.problem("corr", "compaction input unknown to the model", name=nm)
-                            raise Problem()
-                        ids.append(int(self.bind[nm]))
-                    # the directory name is the sum of the inputs: order-free; give the model a canonical order
-                    order = sorted(range(len(ids)), key=lambda i: ids[i])
-                    # outputs in the order the multi-builder cut them: ascending first key
-                    outs.sort(key=lambda nm: self.cache[nm][0][0][0] if self.cache[nm][0] else b"")
-                    m = self.model.cmd("PEND C %s %s | %s" % ("gc" if int(t[2]) == 15 else "merge", ",".join(str(ids[i]) for i in order),
-                                                          " ; ".join(",".join(ent_str(e) for e in self.cache[nm][0]) for nm in outs)))
-                    kept, prefix = self.canon_events(oe)
-                    self.compare_trace(kept, [c for c in m[6:].split(" ; ") if c], "compaction (session %d op %d)" % (si, n))
-                    self.probe_points(oe, prefix, "during compaction %d of session %d" % (n, si), list(self.acked), None, "compact " + res[:60], si, kill_ctx)
-                    fault_plan += self.plan_faults(si, n, oe, prefix)
-                    g = self.model_go("session %d op %d" % (si, n))
-            self.model.cmd("EXIT")
-            # the process exited: everything written is there
-            self.session_scripts = getattr(self, "session_scripts", []) + [(start_fs, script, items)]
+            self.play_session(real, si, sess)
         # ---- injected I/O errors
-        self.fault_runs(fault_plan)
+        self.fault_runs(self.fault_plan)
+
+    def play_session(self, real, si, sess):
+        """one session of the real store in directory `real` (recorded under strace) and, in lock step,
+        the same operations on the model; crash points probed while self.probing"""
+        root_abs = os.path.join(real, "db")
+        fault_plan = self.fault_plan if self.probing else []
+        script, items = session_script(sess)
+        start_fs = self.fs.clone()
+        trace = os.path.join(self.dir, "s%d.trace" % si)
+        so = SessionOut(run_session(self.exe, real, self.opts, script, trace=trace))
+        self.stats["sessions"] += 1
+        evs, _ = F.parse_trace(trace, root_abs, "db")
+        os.unlink(trace)
+        self.all_events = getattr(self, "all_events", {})
+        self.all_events[si] = evs
+        # segment the events by the markers
+        segs, cur, cur_key = {}, [], "open"
+        for ev in evs:
+            if ev.marker:
+                t = ev.marker.split(" ")
+                if t[1] == "O":
+                    segs["open"] = cur
+                    cur, cur_key = [], None
+                elif t[1] == "S":
+                    if cur:
+                        segs.setdefault("stray", []).extend(cur)
+                    cur, cur_key = [], int(t[2])
+                elif t[1] == "A":
+                    segs[int(t[2])] = cur
+                    cur, cur_key = [], None
+                continue
+            if ev.kind is not None:
+                cur.append(ev)
+        if cur:
+            segs.setdefault("stray", []).extend(cur)
+        if segs.get("stray"):
+            self.problem("corr", "store calls outside any operation", calls=[repr(e) for e in segs["stray"][:5]])
+        if so.open != "ok" or so.hang:
+            self.problem("prop", "open failed in a fault-free history: %s" % so.open, replay={"options": self.optname, "history": ops_to_json(self.ops), "session": si})
+            raise Problem()
+        kill_ctx = (start_fs, script) if self.probing else None
+        # ---- open
+        oevs = segs.get("open", [])
+        self.stats["events"] += len(oevs)
+        m = self.model.cmd("PEND O")
+        kept, prefix = self.canon_events(oevs)
+        self.compare_trace(kept, [c for c in m[6:].split(" | ")[0].split(" ; ") if c], "open (session %d)" % si)
+        self.probe_points(oevs, prefix, "during open of session %d" % si, list(self.acked), None, "open", si, kill_ctx)
+        fault_plan += self.plan_faults(si, "open", oevs, prefix)
+        g = self.model.cmd("GO")
+        if not g.startswith("DONE ok=1"):
+            self.problem("corr", "model open failed: " + g)
+            raise Problem()
+        # ---- operations
+        for n, (kind, payload) in enumerate(items, start=1):
+            res = so.res.get(n)
+            oe = segs.get(n, [])
+            self.stats["events"] += len(oe)
+            if res is None:
+                self.problem("prop", "operation did not return: %s" % kind, replay={"options": self.optname, "history": ops_to_json(self.ops), "session": si, "op": n})
+                raise Problem()
+            if kind == "dump":
+                files, seq = parse_dump(so.info.get(n, []), res, self.cache)
+                self.tree = [nm for _, nm in files]
+                self.tree_levels = files
+                self.sync_files(g, files, seq, "session %d op %d" % (si, n))
+                if oe:
+                    self.problem("corr", "dump issued store calls", calls=[repr(e) for e in oe[:3]])
+                continue
+            if kind == "getall":
+                continue
+            self.stats["ops"] += 1
+            if kind == "w":
+                if res != "ok":
+                    self.outside("write failed in a fault-free history: %s" % res, si, n)
+                    raise Problem()
+                self.stats["writes"] += 1
+                m = self.model.cmd("PEND W " + ",".join("%s=%s" % (hx(k), "~" if v is None else hx(mv(v))) for k, v in payload))
+                kept, prefix = self.canon_events(oe)
+                self.compare_trace(kept, [c for c in m[6:].split(" ; ") if c], "write (session %d op %d)" % (si, n))
+                self.probe_points(oe, prefix, "during write %d of session %d" % (n, si), list(self.acked), payload, "write " + script[n - 1], si, kill_ctx)
+                fault_plan += self.plan_faults(si, n, oe, prefix)
+                g = self.model_go("session %d op %d" % (si, n))
+                self.acked.append(list(payload))
+                if isinstance(payload, WX):
+                    logs = [len(nd.data) for p_, nd in self.fs.files.items() if p_.startswith("log.")]
+                    self.stats["biglog_writes"] = self.stats.get("biglog_writes", 0) + 1
+                    if logs != [payload.end]:
+                        self.problem("corr", "big-log history: the log is not as long as the framing arithmetic says", want=payload.end, got=logs)
+                    elif payload.end % BLOCK in (0,) + tuple(BLOCK - i for i in range(1, 21)):
+                        self.stats["biglog_frame_ends_near_boundary"] = self.stats.get("biglog_frame_ends_near_boundary", 0) + 1
+            elif kind == "flush":
+                if not res.startswith("ok"):
+                    self.outside("flush failed in a fault-free history: %s" % res, si, n)
+                    raise Problem()
+                self.stats["flushes"] += 1
+                m = self.model.cmd("PEND F")
+                kept, prefix = self.canon_events(oe)
+                self.compare_trace(kept, [c for c in m[6:].split(" | ")[0].split(" ; ") if c], "flush (session %d op %d)" % (si, n))
+                self.probe_points(oe, prefix, "during flush %d of session %d" % (n, si), list(self.acked), None, "flush", si, kill_ctx)
+                fault_plan += self.plan_faults(si, n, oe, prefix)
+                g = self.model_go("session %d op %d" % (si, n))
+            elif kind == "compact":
+                t = res.split(" ")
+                if t[0] == "none":
+                    if oe:
+                        self.problem("corr", "a compaction step that found nothing issued store calls")
+                    continue
+                if t[0] != "ok":
+                    # K2 (C01): after a reopen recover.rs can build a level whose files overlap; the selector's
+                    # assertion (find_best_compaction) then panics and leaves the tree's mutex poisoned.  Only
+                    # that shape is the known class: a PANIC while the last dumped tree has an ill-formed level.
+                    # Anything else is a fault-free operation that failed: a violation.
+                    if res == "PANIC" and (self.tree_ill_formed() or getattr(self, "k2_poisoned", False)):
+                        self.known.append(("K2", "a compaction step panics on a reopened tree with an ill-formed level"))
+                        self.stats["k2_selector_failures"] = self.stats.get("k2_selector_failures", 0) + 1
+                        self.k2_poisoned = True
+                    else:
+                        self.problem("prop", "compaction failed in a fault-free history: %s" % res,
+                                     replay={"options": self.optname, "history": ops_to_json(self.ops), "session": si, "op": n})
+                        raise Problem()
+                    if oe:
+                        raise Problem()
+                    continue
+                inputs = t[6].split(",")
+                if len(inputs) == 1:
+                    self.stats["moves"] += 1
+                    if oe:
+                        self.problem("corr", "a trivial move issued store calls", calls=[repr(e) for e in oe[:3]])
+                    continue
+                self.stats["compactions"] += 1
+                # the outputs: what the next dump shows that was not there, plus inputs that stayed
+                nfiles, _ = parse_dump(so.info.get(n + 1, []), so.res.get(n + 1, ""), self.cache)
+                after = [nm for _, nm in nfiles]
+                before = set(self.tree)
+                outs = [nm for nm in after if nm not in before or nm in inputs]
+                in_e = set(ent_str(e) for nm in inputs for e in self.cache.get(nm, ([], None))[0])
+                out_e = set(ent_str(e) for nm in outs for e in self.cache.get(nm, ([], None))[0])
+                if in_e != out_e:
+                    self.stats["gc"] += 1
+                ids = []
+                for nm in inputs:
+                    if nm not in self.bind:
+                        self.problem("corr", "compaction input unknown to the model", name=nm)
+                        raise Problem()
+                    ids.append(int(self.bind[nm]))
+                # the directory name is the sum of the inputs (order-free); the inputs are retired in the order
+                # of the old version's levels: give the model the order the renames to trash/ were issued in,
+                # so that a crash image taken between two of them is the same directory on both sides
+                retired = [e_.p1[4:-4] for e_ in oe if e_.kind == "rename" and (e_.p1 or "").startswith("sst/") and (e_.p2 or "").startswith("trash/")]
+                rank = {nm: i for i, nm in enumerate(retired)}
+                order = sorted(range(len(ids)), key=lambda i: (rank.get(inputs[i], len(rank)), ids[i]))
+                # outputs in the order the multi-builder cut them: ascending first key
+                outs.sort(key=lambda nm: self.cache[nm][0][0][0] if self.cache[nm][0] else b"")
+                m = self.model.cmd("PEND C %s %s | %s" % ("gc" if int(t[2]) == 15 else "merge", ",".join(str(ids[i]) for i in order),
+                                                      " ; ".join(",".join(ent_str(e) for e in self.cache[nm][0]) for nm in outs)))
+                kept, prefix = self.canon_events(oe)
+                self.compare_trace(kept, [c for c in m[6:].split(" ; ") if c], "compaction (session %d op %d)" % (si, n))
+                self.probe_points(oe, prefix, "during compaction %d of session %d" % (n, si), list(self.acked), None, "compact " + res[:60], si, kill_ctx)
+                fault_plan += self.plan_faults(si, n, oe, prefix)
+                g = self.model_go("session %d op %d" % (si, n))
+        self.model.cmd("EXIT")
+        # the process exited: everything written is there
+        if self.probing:
+            self.session_scripts = getattr(self, "session_scripts", []) + [(start_fs, script, items)]
 
     def plan_faults(self, si, opn, evs, prefix):
         """candidate fault points of the pending operation; for a sample of them ask the model (whose
         pending operation is this one) whether the injected error is returned"""
         out = []
+        if not self.probing:
+            return out
         est = 4 * max(1, len(self.ops))
         budget = 8 if self.tier == "quick" else 80
         for r, ev in enumerate(evs):
@@ -930,11 +1037,14 @@ class History:
             self.stats["faults_surfaced"] += 1
             if hit == "PANIC":
                 self.problem("prop", "an injected %s made the operation panic instead of returning an error" % errno, replay=rp)
-        # what was acknowledged in THIS run (sessions before si are as recorded)
+        # ---- the session goes on after the error: what each later operation must answer
+        if opn != "open" and not getattr(self, "k2_poisoned", False):
+            self.judge_after_fault(so, items, opn, ev, dropped_by_design, errno, rp)
+        # ---- what was acknowledged in THIS run (sessions before si are as recorded)
         prior = []
         for sj in range(si):
             prior += [p for k, p in self.session_scripts[sj][2] if k == "w"]
-        acked, maybe = list(prior), []
+        acked, failed, undecided = list(prior), [], None
         for n, (kind, payload) in enumerate(items, start=1):
             if kind != "w":
                 continue
@@ -942,52 +1052,108 @@ class History:
             if r == "ok":
                 acked.append(payload)
             elif n in so.started:
-                maybe.append((len(acked), payload))
+                # a write that returned an error must not be there after a reopen - except the one whose
+                # OWN fdatasync was the injected call: its frame reached the file, durable or not
+                if n == opn and ev.kind == "sync" and (ev.p1 or "").startswith("log."):
+                    undecided = (len(acked), payload)
+                else:
+                    failed.append(payload)
         pr = probe(self.exe, d, self.opts)
         self.stats["probes"] += 1
         if pr["open"] != "ok":
             self.problem("prop", "reopen after an injected %s failed: %s" % (errno, pr["open"]), replay=rp)
             return
         vis = visible(pr["ents"])
-        ok = False
-        # which unacknowledged batches made it: every batch carries one timestamp of its own, so the
-        # recovered entries, grouped by timestamp, show them (a group can have lost entries to a
-        # garbage collection, never gained any); any number of failed writes is handled this way
+        cands = [acked]
+        if undecided is not None:
+            w = list(acked)
+            w.insert(undecided[0], undecided[1])
+            cands.append(w)
+            self.stats["faults_undecided_write"] = self.stats.get("faults_undecided_write", 0) + 1
+        if not any(self.spec_map(w) == vis for w in cands):
+            self.problem("prop", "after an injected %s and a reopen the store does not hold exactly the acknowledged writes (+ the write whose own fdatasync failed, wholly or not at all)" % errno,
+                         got={hx(k): hx(v)[:40] for k, v in vis.items()}, acked={hx(k): hx(v)[:40] for k, v in self.spec_map(acked).items()}, replay=rp)
+            return
+        # nothing else: no recovered batch (entries of one timestamp) is a write that returned an error
         groups = {}
         for k, ts, v in pr["ents"]:
             groups.setdefault(ts, {})[k] = v
-        # all write calls in sequence-number order: (batch, acknowledged?); the groups, in timestamp
-        # order, are matched to them in order (a write without a group was lost or collected)
-        calls = [(pl, True) for pl in prior]
-        ai = len(prior)
+        legit = [dict(b) for b in acked] + ([dict(undecided[1])] if undecided else [])
+        for b in failed:
+            if dict(b) in groups.values() and dict(b) not in legit:
+                self.problem("prop", "after an injected %s and a reopen the store holds a write that had returned an error" % errno,
+                             batch={hx(k): (None if v is None else hx(v)[:40]) for k, v in b}, replay=rp)
+                return
+        self.stats["faults_failed_writes_absent"] = self.stats.get("faults_failed_writes_absent", 0) + len(failed)
+
+    def judge_after_fault(self, so, items, opn, ev, dropped_by_design, errno, rp):
+        """after the operation that was hit: a poisoned log refuses writes until the next rollover, a dead
+        memtable thread refuses flushes, a poisoned manifest refuses edits; everything else must go on
+        working, and the running store must read exactly what it acknowledged"""
+        on_mani = (ev.p1 or "").startswith("mani/") or (ev.p2 or "").startswith("mani/")
+        log_dead = thread_dead = mani_dead = False
+        kind_hit = items[opn - 1][0]
+        if not dropped_by_design:
+            if kind_hit == "w":
+                log_dead = True
+            elif kind_hit == "flush":
+                thread_dead = True
+                mani_dead = on_mani
+            elif kind_hit == "compact":
+                mani_dead = on_mani
+        acked_here = []
         for n, (kind, payload) in enumerate(items, start=1):
-            if kind == "w" and (so.res.get(n) == "ok" or n in so.started):
-                calls.append((payload, so.res.get(n) == "ok"))
-        seqs, ci = [], 0
-        matched = set()
-        for ts in sorted(groups):
-            g = groups[ts]
-            j = ci
-            while j < len(calls) and not all(dict(calls[j][0]).get(k, b"\0absent") == v for k, v in g.items()):
-                j += 1
-            if j < len(calls):
-                matched.add(j)
-                ci = j + 1
-        seqs = [pl for j, (pl, ack) in enumerate(calls) if ack or j in matched]
-        if self.spec_map(seqs) == vis:
-            ok = True
-        for mask in range(0 if ok else 1 << min(len(maybe), 8)):
-            seqs = list(acked)
-            # an unacknowledged write keeps its place in the order of sequence numbers
-            ins = sorted(((pos, pl) for i, (pos, pl) in enumerate(maybe) if mask >> i & 1), key=lambda x: -x[0])
-            for pos, pl in ins:
-                seqs.insert(pos, pl)
-            if self.spec_map(seqs) == vis:
-                ok = True
+            res = so.res.get(n)
+            if res is None:
                 break
-        if not ok:
-            self.problem("prop", "after an injected %s and a reopen the store does not hold the acknowledged writes (+ whole unacknowledged ones)" % errno,
-                         got={hx(k): hx(v) for k, v in vis.items()}, acked={hx(k): hx(v) for k, v in self.spec_map(acked).items()}, replay=rp)
+            if kind == "w" and res == "ok":
+                acked_here.append(n)
+            if n <= opn:
+                continue
+            ok = res == "ok" or res.startswith("ok") or res == "none"
+            if res == "PANIC":
+                self.problem("prop", "after an injected %s a later %s panicked" % (errno, kind), op=n, replay=rp)
+                return
+            if kind == "w":
+                if ok == log_dead:
+                    self.problem("prop", "after an injected %s a later write returned %s although the log %s" % (errno, res, "had failed" if log_dead else "was intact"), op=n, replay=rp)
+                    return
+            elif kind == "flush":
+                want_err = thread_dead or log_dead or mani_dead
+                if ok == want_err:
+                    self.problem("prop", "after an injected %s a later flush returned %s (expected %s: thread_dead=%s log_failed=%s manifest_poisoned=%s)" %
+                                 (errno, res, "an error" if want_err else "ok", thread_dead, log_dead, mani_dead), op=n, replay=rp)
+                    return
+                if not thread_dead:
+                    if want_err:
+                        thread_dead = True
+                    log_dead = False            # the rollover gave the store a new log before anything failed
+                self.stats["flushes_judged_after_fault"] = self.stats.get("flushes_judged_after_fault", 0) + 1
+            elif kind == "compact":
+                if ok and mani_dead and res != "none" and len(res.split(" ")) > 6 and "," in res.split(" ")[6]:
+                    self.problem("prop", "after an injected %s a compaction edited a poisoned manifest: %s" % (errno, res[:60]), op=n, replay=rp)
+                    return
+            elif kind == "getall" and res.startswith("GET"):
+                seen = ["." if g == "~" else g for g in res.split(" ")[1:]]
+                spec = self.spec_map(self.acked_before_session(rp["session"]) + [items[m - 1][1] for m in acked_here])
+                want = ["." if spec.get(k) is None else hx(spec[k]) for k in UNIVERSE]
+                if seen != want:
+                    cache = {}
+                    files, _ = parse_dump(so.info.get(n + 1, []), so.res.get(n + 1, ""), cache)
+                    bad = [k for k, g, w in zip(UNIVERSE, seen, want) if g != w]
+                    if len(seen) == len(want) and self.k2_pair({"files": [nm for _, nm in files], "cache": cache}, bad):
+                        self.known.append(("K2", "reads of the running store differ from its acknowledged writes; two live files both hold the key and overlap in timestamp range"))
+                    else:
+                        self.problem("prop", "after an injected %s the running store does not read what it acknowledged" % errno, got=seen, want=want, replay=rp)
+                        return
+                else:
+                    self.stats["reads_judged_after_fault"] = self.stats.get("reads_judged_after_fault", 0) + 1
+
+    def acked_before_session(self, si):
+        out = []
+        for sj in range(si):
+            out += [p for k, p in self.session_scripts[sj][2] if k == "w"]
+        return out
 
 
 def ops_to_json(ops):
@@ -1057,6 +1223,46 @@ def torn_log_probe(exe, work):
     return out
 
 
+def small_buffer_probe(exe, work):
+    """outside the model's assumption (informational, not judged): with a log write buffer smaller than a
+    frame the header and the body of one append are separate write() calls; what does a crash between
+    them do to the next open?"""
+    d = os.path.join(work, "smallbuf")
+    shutil.rmtree(d, ignore_errors=True)
+    os.makedirs(d)
+    opts = ["--log-write-buffer", "16"]
+    tr = os.path.join(d, "t.trace")
+    run_session(exe, d, opts, ["put 6b31 %s" % ("76" * 40), "put 6b32 %s" % ("77" * 40)], trace=tr)
+    evs, _ = F.parse_trace(tr, os.path.join(d, "db"), "db")
+    fs, per_put, cur, img = F.PyFS(), [], None, None
+    for ev in evs:
+        if ev.marker:
+            t = ev.marker.split(" ")
+            if t[1] == "S":
+                cur = 0
+            elif t[1] == "A" and cur is not None:
+                per_put.append(cur)
+                cur = None
+            continue
+        if ev.kind is None:
+            continue
+        if ev.kind == "write" and (ev.p1 or "").startswith("log.") and cur is not None:
+            if len(per_put) == 1 and cur == 1 and img is None:
+                img = fs.image("a")         # the second put's header is written, its body is not
+            cur += 1
+        fs.apply(ev)
+    res = "not reached"
+    if img is not None:
+        d2 = os.path.join(work, "smallbuf_img")
+        shutil.rmtree(d2, ignore_errors=True)
+        os.makedirs(d2)
+        img.materialise(os.path.join(d2, "db"))
+        res = SessionOut(run_session(exe, d2, opts, ["getall 6b31,6b32"])).open
+        shutil.rmtree(d2, ignore_errors=True)
+    shutil.rmtree(d, ignore_errors=True)
+    return "with --log-write-buffer 16 the puts issued %s write() calls to the log; process death between the two writes of the second put: reopen -> %s" % (per_put, res)
+
+
 def run(chk):
     ok_proof, info = vlib.proof_stage(chk, PROPS, MODULE, const_areas=("Crash", "Lsm"), pins_rel="pins/C02.v")
     exe, mx = build()
@@ -1090,6 +1296,7 @@ def run(chk):
     with multiprocessing.Pool(min(len(jobs), max(2, vlib.NCPU - 2))) as pool:
         results = pool.map(_job, jobs, chunksize=1)
     torn = torn_log_probe(exe, chk.work)
+    smallbuf = small_buffer_probe(exe, chk.work)
 
     known = {k[1]: k[2] for k in vlib.known_findings("C02") if k[0] == "known"}
     stats = {}
@@ -1133,6 +1340,7 @@ def run(chk):
         "traces_validated_against_impl": stats.get("ops", 0) + stats.get("sessions", 0),
         "correspondence": "per operation: the strace-recorded mutating calls (create/write/fsync/link/rename/unlink/mkdir/rmdir) vs the calls of the extracted model, names unified; per crash point: entries recovered by the real store vs the model's prediction vs the acknowledgement record",
         "disagreements_impl_vs_model": len(corr_only), "disagreements_impl_vs_spec": reported,
+        "small_write_buffer_probe_outside_model": smallbuf,
         "torn_log_probe_outside_quantifier": "open of a store whose log was cut inside a record: %s (F8 repaired: an error, not a panic)" % torn,
         "trusted_base": [
             "Coq 8.16.1 kernel (coqc, full .vo build)",
@@ -1144,6 +1352,7 @@ def run(chk):
         ],
     })
     chk.assumptions = ["single-stepped execution: no operation runs concurrently with another (C06/C07/C20 treat concurrency)",
+                       "a log append is ONE write(): true while LogOptions.write_buffer holds a whole frame (default 2 MiB against frames of at most 1 MiB; the histories use the default and 4096); below that header and body are separate calls and a crash between them tears the record (probe recorded)",
                        "the unit of loss is a whole write() call; torn writes are C09's subject (F8 probe recorded)",
                        "garbage-collecting compactions are covered by the correspondence (file sets, reads) but not by the entry-level theorem"]
     if torn == "PANIC":
